@@ -54,5 +54,6 @@ def floatTr : Tr where
   sqrtQ q := floatToRat (Float.sqrt (ratToFloat q))
   logQ q := floatToRat (Float.log (ratToFloat q))
   expQ q := floatToRat (Float.exp (ratToFloat q))
+  cbrtQ q := floatToRat (Float.pow (ratToFloat q) (1.0 / 3.0))
 
 end VerifModel.Proto
